@@ -13,7 +13,9 @@ Line-protocol drivers + implementation-output checkers for C12.
                 transfer module is a stand-in that takes the token into the channel's escrow account),
                 `by=K` makes K the signing administrator. An accepted transfer prints all four grants.
                 `smk` / `sadd` / `sdel` / `smint` / `sburn` / `swd`: a marker created with
-                MsgAddFinalizeActivateMarker and then driven by real messages of named accounts.
+                MsgAddFinalizeActivateMarker and then driven by real messages of named accounts;
+                `sprop` (MsgAddMarker: proposed, manager A) / `sfin` / `sact` / `scan`: the same through
+                the marker's life cycle (MsgFinalize / MsgActivate / MsgCancel).
                 Optional `rec=<recorded supply> cbal=<caller balance> sup=<coins in existence>`
                 on a `probe` line replace the `ctl` flag by what `accountControlsAllSupply` computes.
 -/
@@ -57,6 +59,7 @@ structure PState where
 def showAccept : AcceptRes → String
   | .rejectLimit => "err:limit"
   | .rejectRecipient => "err:recipient"
+  | .panicNegative => "panic:other"
   | .accept del g => s!"accept del={boolStr del} limit={showLimit g.limit} allow={showAllow g.allow}"
 
 /-- The property's conclusion on one accepted use, against the ORIGINAL grant `g0` and what
@@ -93,7 +96,8 @@ def pureStep (s : PState) (ws : List String) (impl : Option String) : PState × 
       let implAccepted := match impl with
         | some i => (words i).headD "" == "accept"
         | none => out.startsWith "accept"
-      let v := match impl, s.g0 with
+      -- a negative amount is no transfer (`ValidateBasic` refuses the message): nothing to judge
+      let v := if a < 0 then "-" else match impl, s.g0 with
         | some i, some g0 =>
           if (words i).headD "" == "accept" then
             let v := useVerdict g0 s.movedImpl s.nAcc u
@@ -266,7 +270,7 @@ def showMState (m : MState) : String :=
   let acl := rs.map fun r => s!"{r.1}:{if r.2.isEmpty then "-" else "+".intercalate (r.2.map Access.toString)}"
   let bs := (m.bals.filter (·.2 != 0)).foldl (fun acc r => insertSortedBy (fun (a b : String × Int) => a.1 < b.1) r acc) []
   let bals := bs.map fun b => s!"{b.1}:{b.2}"
-  s!"rec={m.record} esc={m.escrow} sup={m.circulating} acl={if acl.isEmpty then "-" else "|".intercalate acl} bals={if bals.isEmpty then "-" else "|".intercalate bals}"
+  s!"st={m.status.toString} mgr={m.manager.getD "-"} rec={m.record} esc={m.escrow} sup={m.circulating} acl={if acl.isEmpty then "-" else "|".intercalate acl} bals={if bals.isEmpty then "-" else "|".intercalate bals}"
 
 /-- read the implementation's dump back (the checker then judges the next message in the
 state the implementation is really in, so one disagreement does not cascade) -/
@@ -281,7 +285,10 @@ def parseMState? (prev : MState) (ws : List String) : Option MState := do
     match ent.splitOn ":" with
     | [a, v] => (parseInt? v).map fun x => (a, x)
     | _ => none
-  pure { prev with live := true, record := record, escrow := escrow, rights := rights, bals := bals }
+  let status ← (kv ws "st") >>= Status.ofString?
+  let mgr ← kv ws "mgr"
+  pure { prev with live := true, record := record, escrow := escrow, rights := rights, bals := bals,
+                   status := status, manager := if mgr == "-" then none else some mgr }
 
 /-- scenario op, its caller, and the `Op` whose credentials the checker looks at -/
 def parseSOp? (w : String) (ws : List String) : Option (SOp × String × Option Op) :=
@@ -292,6 +299,15 @@ def parseSOp? (w : String) (ws : List String) : Option (SOp × String × Option 
     let ty ← (kv ws "ty") >>= MType.ofString?
     let acc ← (kv ws "acc") >>= parseAccess?
     pure (.create amt fixed ty acc, "A", none)
+  | "sprop" => do
+    let amt ← (kv ws "amt") >>= parseInt?
+    let fixed ← (kv ws "fixed") >>= parseBool?
+    let ty ← (kv ws "ty") >>= MType.ofString?
+    let acc ← (kv ws "acc") >>= parseAccess?
+    pure (.propose amt fixed ty acc, "A", none)
+  | "sfin" => do pure (.finalize (← kv ws "by"), ← kv ws "by", some .finalize)
+  | "sact" => do pure (.activate (← kv ws "by"), ← kv ws "by", some .activate)
+  | "scan" => do pure (.cancel (← kv ws "by"), ← kv ws "by", some .cancel)
   | "sadd" => do
     let rights ← (kv ws "rights") >>= parseAccess?
     pure (.add (← kv ws "by") (← kv ws "to") rights, ← kv ws "by", some .addAccess)
@@ -384,7 +400,11 @@ def appStep (s : AState) (ws : List String) (impl : Option String) : AState × S
       let v := match impl, mop with
         | some i, some op =>
           let c := s.mkr.cfg by_
-          probeVerdict op c (honestCfg c (s.mkr.balOf by_) s.mkr.circulating) i
+          let v := probeVerdict op c (honestCfg c (s.mkr.balOf by_) s.mkr.circulating) i
+          -- the credential-free success (`Cancel` of a cancelled marker) must leave the marker as it was
+          if v == "ok" && Spec.noop op c && (words i).headD "" == "ok"
+              && " ".intercalate ((words i).drop 1) != showMState s.mkr then "fail:cancel_noop_changed_state"
+          else v
         | some _, none => "-"
         | none, _ => "-"
       -- follow the implementation's state when it is given
@@ -394,6 +414,7 @@ def appStep (s : AState) (ws : List String) (impl : Option String) : AState × S
           if iw.headD "" == "ok" then
             let base := match sop with
               | .create _ fixed ty _ => { mk' with fixed := fixed, mtype := ty }
+              | .propose _ fixed ty _ => { mk' with fixed := fixed, mtype := ty }
               | _ => s.mkr
             (parseMState? base iw).getD mk'
           else s.mkr
